@@ -78,6 +78,8 @@ function gsub(Sub p) -> int { return 1; }
 function ga(int[] p) -> int { return 1; }
 function gfa(float[] p) -> int { return 1; }
 function vf() -> void { }
+function go2(Foo p, int k) -> int { return k; }
+function go3(int a, Foo p, int k) -> int { return k; }
 """
 
 # key -> (type source, suffix used in helper names, array element type or None)
@@ -248,6 +250,10 @@ STMT_RULES = [
     ("final-local:for-update", "", ["final int c0 = 1;", "for (int q0 = 0; q0 < 1; c0 = 5) { q0 = q0 + 1; }"],
      ["int c0 = 1;", "for (int q0 = 0; q0 < 1; c0 = 5) { q0 = q0 + 1; }"], "all"),
     ("final-local:uninit", "", ["final int c0;"], ["final int c0 = 1;"], "all"),
+    # every argument is checked, also those that follow a null
+    ("type:arg-after-null", "", ["int r0 = go2(null, \"seven\");"], ["int r0 = go2(null, 7);"], "all"),
+    ("type:arg-after-null-3", "", ["int r0 = go3(1, null, 2.5f);"], ["int r0 = go3(1, null, 2);"], "all"),
+    ("type:arg-before-null", "", ["int r0 = go3(\"x\", null, 2);"], ["int r0 = go3(1, null, 2);"], "all"),
     # ... declared in a for header
     ("final-local:for-init-update", "", ["for (final int c0 = 0; c0 < 1; c0 = c0 + 1) { }"],
      ["for (int c0 = 0; c0 < 1; c0 = c0 + 1) { }"], "all"),
